@@ -289,6 +289,9 @@ class RungeKuttaIntegrator(TableauIntegrator, abc.ABC):
             if self.__rhs_jac is None:
                 self.__rhs_jac = rhs.jac(initial_time, initial_state, **constants)
             desired_tol = D.ar_numpy.max(D.ar_numpy.abs(self.atol + D.ar_numpy.max(D.ar_numpy.abs(self.rtol * initial_state)))) * 0.5
+            # the unknowns are the stage SLOPES: an error e in them moves the state by |timestep|*e, so for steps
+            # longer than 1 the slope tolerance has to shrink with the step for the state to meet (atol, rtol)
+            desired_tol = desired_tol / D.ar_numpy.maximum(D.ar_numpy.abs(timestep), 1.0)
             aux_root, (self.solver_dict["newton_iteration_success"], num_iter, _, _, prec) = \
                 utilities.optimizer.nonlinear_roots(
                     self.algebraic_system, initial_guess,
